@@ -143,10 +143,12 @@ def key_norm(v):
 
 
 def kn_axioms(vs):
-    """ground instances: kn is idempotent; atoms other than refs are their own canonical form."""
+    """ground instances of the kn axioms (the quantified versions are in Engine.base_axioms);
+    they make the quantifier-free pruning solver as informed as the full one for these terms"""
     out = []
     for v in vs:
         out.append(kn(kn(v)) == kn(v))
-        out.append(z3.Implies(z3.Not(is_ref(v)), kn(v) == v))
+        out.append(z3.Implies(z3.Or(is_none(v), is_str(v), is_cls(v), is_int(v), is_absent(v), is_real(v)), kn(v) == v))
+        out.append(z3.Implies(is_bool(v), kn(v) == vint(z3.If(b_of(v), 1, 0))))
         out.append(z3.Implies(is_ref(v), is_ref(kn(v))))
     return out
